@@ -963,6 +963,9 @@ class SamplingMethod(DirectMethod):
                 opti.set_initial(target, ca.repmat(value,1,target.shape[1]), cache_advanced=True)
             for k in list(range(self.N))+[-1]:
                 target = self.eval_at_control(stage, var, k)
+                if k==-1 and self.N>0 and is_equal(target, self.eval_at_control(stage, var, self.N-1)):
+                    # per-interval quantity (control, ...): the final node has no entry of its own
+                    continue
                 value_k = value
                 if target.numel()*(self.N)==value.numel() or target.numel()*(self.N+1)==value.numel():
                     value_k = value[:,k]
